@@ -709,6 +709,7 @@ func (x *Exec) loopHeader(st *State, fr *Frame, h *ssa.BasicBlock, ord int, phis
 			if len(spec.IterEnsures) > 0 {
 				isc := x.specCtxFor(st, fr, nil)
 				isc.evFrom = fr.loopEv[h]
+				isc.head = fr.loopSnap[h]
 				for i, ie := range spec.IterEnsures {
 					x.assert(st, x.oblName(kindPrefix+"/iteration", i+1, ie.Label), "iteration-ensures", ie.Text, ie.Src, x.evalBool(isc, ie.Expr), true)
 				}
@@ -754,6 +755,16 @@ func (x *Exec) loopHeader(st *State, fr *Frame, h *ssa.BasicBlock, ord int, phis
 			st.assume(x.evalBool(sc2, inv.Expr))
 		}
 	}
+	snap := &headSnap{heap: copyHeap(st.heap), env: make(map[string]envEntry, len(fr.env))}
+	for k, v := range fr.env {
+		snap.env[k] = v
+	}
+	ns := make(map[*ssa.BasicBlock]*headSnap, len(fr.loopSnap)+1)
+	for k, v := range fr.loopSnap {
+		ns[k] = v
+	}
+	ns[h] = snap
+	fr.loopSnap = ns
 }
 
 // havocLoopWrites havocs every heap location that the loop body may assign (syntactic over-approximation).
